@@ -113,6 +113,8 @@ m = {
     "kind_free_text": "extension X01 (not a listed property; ./check X01): the adjustment/update builder API as a state machine (tla/Builder), call sequences replayed on real values (harness/builddrv), TLC trace validation (tla/Trace_Builder); evidence in evidence/ext/"},
    {"name": "stubsetup", "path": "/verif/lib/stubsetup.py", "serves_properties": [],
     "kind_free_text": "extension X03 (not a listed property; ./check X03): identity and connection source of a stub (tla/StubSetup), child processes with the scenario's environment / options / argv[0] (harness/setupdrv), TLC trace validation (tla/Trace_StubSetup)"},
+   {"name": "apihelpers", "path": "/verif/lib/apihelpers.py", "serves_properties": [],
+    "kind_free_text": "extension X04 (not a listed property; ./check X04): exported helpers of pkg/api - ParseEventMask shorthands, removal markers, Mount.Cmp / LinuxDevice.Cmp, Hooks.Append (tla/ApiHelpers, harness/helpdrv, tla/Trace_ApiHelpers); two findings under property=X04"},
    {"name": "adaptlife", "path": "/verif/lib/adaptlife.py", "serves_properties": [],
     "kind_free_text": "extension X02 (not a listed property; ./check X02): Adaptation Start/Stop/restart against registrations in flight (tla/AdaptLife, tla/Gen_AdaptLife), schedules stepped through a real Adaptation (harness/alifedrv), TLC trace validation (tla/Trace_AdaptLife); findings under property=X02 in known_findings.txt"},
    {"name": "convert", "path": "/verif/lib/convert.py", "serves_properties": ["C14"],
